@@ -25,11 +25,21 @@ static long g_fail_at[2] = { -1, -1 }; // indices (among posix_memalign calls of
 static long g_call = 0;
 static unsigned long g_memalign_calls = 0;
 static volatile int g_asan_errors = 0;
+static bool g_record_only = false; // the request is recorded and refused (sizes too large to be served for real)
+static size_t g_last_al = 0, g_last_sz = 0;
+static unsigned long g_recorded = 0;
 extern "C" int posix_memalign(void** p, size_t al, size_t sz)
 {
     typedef int (*fn)(void**, size_t, size_t);
     static fn real = (fn)dlsym(RTLD_NEXT, "posix_memalign");
     ++g_memalign_calls;
+    if (g_record_only)
+    {
+        g_last_al = al;
+        g_last_sz = sz;
+        ++g_recorded;
+        return 12; // ENOMEM
+    }
     long me = g_call++;
     if (me == g_fail_at[0] || me == g_fail_at[1])
         return 12; // ENOMEM
@@ -303,6 +313,48 @@ struct Runner
             {
                 violation("allocate", tname, "allocate(" + std::to_string(n) + "): n * sizeof(T) is not representable in size_t, yet a block was returned (of " + std::to_string((size_t)(n * sizeof(T))) + " bytes)", "sizes");
                 al.deallocate(p, n);
+            }
+        }
+        // large representable requests, observed at the environment boundary: the interposed posix_memalign records what it
+        // is asked for and refuses. The request must be for at least n * sizeof(T) bytes at an alignment that is a multiple
+        // of A (a size that was truncated, wrapped or rounded down on the way is visible here without 4 GiB blocks), and
+        // the refusal must surface as std::bad_alloc.
+        {
+            std::vector<size_t> big;
+            for (int k = 27; k < 63; ++k)
+                for (long d : { -1L, 0L, 1L, 5L })
+                    big.push_back((((size_t)1 << k) + (size_t)d + sizeof(T) - 1) / sizeof(T));
+            for (size_t k : { (size_t)0xFFFFFFFFu, (size_t)0x100000000ull, (size_t)0x100000040ull, (size_t)0x7FFFFFFFFFFFull, (size_t)0x123456789ABCull })
+                big.push_back(k / sizeof(T) + 1);
+            for (size_t n : big)
+            {
+                if ((unsigned __int128)n * sizeof(T) >> 63)
+                    continue;
+                ++R.size_cases;
+                ++R.transitions;
+                g_record_only = true;
+                g_last_al = g_last_sz = 0;
+                const unsigned long before = g_recorded;
+                bool threw = false;
+                T* p = nullptr;
+                try
+                {
+                    p = al.allocate(n);
+                }
+                catch (const std::bad_alloc&)
+                {
+                    threw = true;
+                }
+                g_record_only = false;
+                if (!threw)
+                    violation("allocate", tname, "allocate(" + std::to_string(n) + "): the system refused the request but allocate returned " + (p ? "a pointer" : "null") + " instead of throwing std::bad_alloc", "sizes");
+                else if (g_recorded == before + 1)
+                {
+                    if (g_last_sz < n * sizeof(T))
+                        violation("allocate", tname, "allocate(" + std::to_string(n) + ") asked the system for " + std::to_string(g_last_sz) + " bytes, fewer than n * sizeof(T) = " + std::to_string(n * sizeof(T)), "sizes");
+                    if (g_last_al == 0 || g_last_al % A)
+                        violation("allocate", tname, "allocate(" + std::to_string(n) + ") asked the system for alignment " + std::to_string(g_last_al) + ", not a multiple of " + std::to_string(A), "sizes");
+                }
             }
         }
         // near SIZE_MAX / sizeof(T) from below: representable but impossible, must throw
